@@ -114,6 +114,39 @@ def load_known():
     return known, fixed
 
 
+def _caller_aliases(ctx, key):
+    """the key with a function id replaced by the root of its only calling function (up to two levels)"""
+    crate = ctx.bin
+    if crate is None:
+        return []
+    callers = ctx.memo("callers-by-root", lambda: _callers_by_root(crate))
+    out = []
+    parts = key.split("|")
+    for i, seg in enumerate(parts):
+        if seg not in crate.fns and norm_key(seg) not in callers:
+            continue
+        cur = crate.fns[seg].root if seg in crate.fns else seg
+        for _level in range(2):
+            cs = callers.get(norm_key(cur), set())
+            if len(cs) != 1:
+                break
+            cur = next(iter(cs))
+            out.append(norm_key("|".join(parts[:i] + [cur] + parts[i + 1:])))
+    return out
+
+
+def _callers_by_root(crate):
+    m = {}
+    for f in crate.real_fns():
+        for _bb, c in f.calls():
+            if c.get("res_local") and c.get("res") in crate.fns:
+                callee = norm_key(crate.fns[c["res"]].root)
+                caller = norm_key(f.root)
+                if caller != callee:
+                    m.setdefault(callee, set()).add(caller)
+    return m
+
+
 PROPERTY_RULES = {
     # property -> (module, [rule function names])
 }
@@ -183,6 +216,12 @@ def run_property(prop, tier, repo=None, write_evidence=True, quiet=False, ctx=No
             e = _sk.alias_match(ctx.bin, key, [k2 for k2 in kn if k2 not in primary], _rv._BOUND["table"])
             if e is not None:
                 known_hits.append((e, (kn[e] or msg) + " [function renamed: now %s]" % key.split("|")[1].split("::")[-1]))
+                continue
+            # the construct was extracted into a helper with a single calling function: the recorded finding is matched under
+            # the caller's name (two levels), provided no construct answers to the recorded key itself any more
+            moved = [a for a in _caller_aliases(ctx, key) if a in kn and a not in primary]
+            if moved:
+                known_hits.append((moved[0], (kn[moved[0]] or msg) + " [now in helper %s]" % key.split("|")[1].split("::")[-1]))
             else:
                 new_viol.append((r.rule, key, msg))
     wall = round(time.time() - t0, 2)
